@@ -31,6 +31,7 @@ use bitvec::view::BitView;
 use serde::{Deserialize, Serialize};
 
 use core::borrow::Borrow;
+use core::cmp::Ordering;
 use core::hash::{Hash, Hasher};
 use core::marker::PhantomData;
 use core::ops::{Bound, Deref, RangeBounds};
@@ -40,12 +41,25 @@ use core::{fmt, ptr, str};
 /// A arbitrary length sequence of bit-packed symbols
 ///
 /// Stored on the heap
-#[derive(Debug, PartialEq, Eq, PartialOrd, Ord)]
+#[derive(Debug, PartialEq, Eq)]
 #[cfg_attr(feature = "serde", derive(Serialize, Deserialize))]
 #[repr(transparent)]
 pub struct Seq<A: Codec> {
     pub(crate) _p: PhantomData<A>,
     pub(crate) bv: Bv,
+}
+
+impl<A: Codec + PartialOrd> PartialOrd for Seq<A> {
+    fn partial_cmp(&self, other: &Self) -> Option<Ordering> {
+        Some(self.bv.iter().by_vals().rev().cmp(other.bv.iter().by_vals().rev()))
+    }
+}
+
+/// Sequences are ordered colexicographically, like `Kmer`s: the last symbol is the most significant
+impl<A: Codec + Ord> Ord for Seq<A> {
+    fn cmp(&self, other: &Self) -> Ordering {
+        self.bv.iter().by_vals().rev().cmp(other.bv.iter().by_vals().rev())
+    }
 }
 
 impl<A: Codec> From<Seq<A>> for usize {
@@ -612,6 +626,7 @@ mod tests {
     use crate::{Bv, Order};
     use bitvec::prelude::*;
     use core::borrow::Borrow;
+use core::cmp::Ordering;
     use core::hash::{Hash, Hasher};
     use core::marker::PhantomData;
     use std::collections::hash_map::DefaultHasher;
